@@ -7,7 +7,10 @@ import os, re, sys, glob, itertools, time
 import vlib
 
 SVC = "c19.TestService"
-KNOWN_KEY_NULLRESP = "null-response-closure-dropped"
+# observation, outside the property (coordinator's decision): a call made with response == NULL violates the
+# contract of google::protobuf::RpcChannel::CallMethod; it is only made in cases whose header says obs=1, and
+# what the code then does (entry erased, closure neither run nor deleted) is counted, never reported
+OBS_KEY_NULLRESP = "obs-null-response-closure-dropped"
 
 LINE = re.compile(r"^(ok|rejected) ev=(\S+) next=(-?\d+) outs=(\S+) pend=(\S+)$")
 FINAL = re.compile(r"^final dtor=(\S+) leaked=(\S+) respleak=(\S+)$")
@@ -27,9 +30,10 @@ def build():
             if rc != 0:
                 raise RuntimeError("protoc C19_test.proto failed: " + out)
             open(stamp, "w").write(key)
-    impl = vlib.build_driver("C19_driver", ["C19_driver.cc", os.path.join(gen, "C19_test.pb.cc")], variant="asan",
+    impl = vlib.build_driver("C19_driver", ["C19_driver.cc", "C19_rpcchannel.cc", os.path.join(gen, "C19_test.pb.cc")], variant="asan",
                              components=("base", "net", "protobuf", "protorpc"), extra_flags=["-I" + gen],
                              libs=["-lprotobuf", "-lz"], wrap=["write", "pthread_mutex_lock"])
+    # C19_rpcchannel.cc = the tree's RpcChannel.cc compiled with the atomic hook (harness/C19_atomic_hook.h)
     model = vlib.build_model("C19")
     return model, impl
 
@@ -73,6 +77,7 @@ def oracle(case, lines):
     (op index, key, message); empty = the property holds on this history."""
     bad = []
     svc_on = "svc=1" in case.header
+    obs_mode = "obs=1" in case.header.split()
     if len(lines) < len(case.ops) + 3:
         return [(len(lines) - 1, "truncated", "implementation produced %d lines for %d ops" % (len(lines), len(case.ops)))]
     id_of_tag, tag_of_id = {}, {}
@@ -206,7 +211,7 @@ def oracle(case, lines):
                 if i in outs:
                     bad.append((idx, "not-erased", "call %d answered but still outstanding" % i))
                 if d and not ran_here:
-                    key = KNOWN_KEY_NULLRESP if (not r and ("leak:%s" % tag) in evs) else "answered-not-run"
+                    key = OBS_KEY_NULLRESP if (not r and obs_mode and ("leak:%s" % tag) in evs) else "answered-not-run"
                     bad.append((idx, key, "a response with id %d was delivered after call %s was registered, its closure did not run%s"
                                 % (i, tag, " (response object NULL: entry erased, closure neither run nor deleted)" if not r else "")))
                 if not d and ran_here:
@@ -490,7 +495,9 @@ def gen_server(rng, tier):
 
 
 def gen_null_response(rng, tier):
-    """calls made with response == NULL and a closure (finding F-C19-1) among ordinary ones"""
+    """out-of-contract calls (response == NULL, with a closure) among ordinary ones.  obs=1: the call is made
+    all the same and model and implementation are compared on it (observation, never a violation);
+    without obs=1 the same history must REJECT the call on both sides and serve the others."""
     for j in range(10 if tier == "quick" else 100):
         n = rng.randint(1, 4)
         v = rng.randrange(n) + 1
@@ -498,7 +505,8 @@ def gen_null_response(rng, tier):
         order = list(range(1, n + 1))
         rng.shuffle(order)
         ops += [resp(i, plain=True) for i in order]
-        yield vlib.Case("nullresp%d" % j, "svc=0", ops, "null-response")
+        yield vlib.Case("nullresp%d" % j, "svc=0 obs=1", ops, "obs-null-response")
+        yield vlib.Case("nullrej%d" % j, "svc=0", ops, "null-response-rejected")
 
 
 def load_cases(path, tagname, prefix=""):
@@ -562,6 +570,15 @@ def nontrivial(case, lines):
     return ev
 
 
+def crash_head(stderr_text):
+    """the informative part of a sanitizer / assert report: from its first line, not its shadow-byte dump"""
+    for mark in ("ERROR: AddressSanitizer", "runtime error:", "Assertion", "ERROR: LeakSanitizer", "harness:"):
+        i = stderr_text.find(mark)
+        if i >= 0:
+            return stderr_text[max(0, stderr_text.rfind("\n", 0, i) + 1):][:900]
+    return stderr_text[-900:]
+
+
 # --------------------------------------------------------------------------- run
 def run(chk, replay=None):
     tier, rng = chk.tier, chk.rng
@@ -589,20 +606,22 @@ def run(chk, replay=None):
     t3 = time.time()
     chk.cov["phase_s"] = {"impl": round(t2 - t1, 1), "model": round(t3 - t2, 1)}
 
-    corr_bad, oracle_bad, known_bad = [], [], []
+    corr_bad, oracle_bad, known_bad, observed = [], [], [], []
     sigs = set()
     for c in cases:
         chk.cov["evaluations"] += 1
         if c.cid in crashes:
             rc, se, partial = crashes[c.cid]
-            oracle_bad.append((c, len(partial), "crash", "implementation crashed (rc=%s) after %d ops: %s" % (rc, max(0, len(partial) - 1), se[-1200:])))
+            oracle_bad.append((c, len(partial), "crash", "implementation crashed (rc=%s) after %d ops: %s" % (rc, max(0, len(partial) - 1), crash_head(se))))
             continue
         li, lm = impl_out.get(c.cid), model_out.get(c.cid)
         if li is None:
             oracle_bad.append((c, 0, "no-output", "no implementation output"))
             continue
         for (idx, key, msg) in oracle(c, li):
-            if any(k["key"] == key for k in known):
+            if key == OBS_KEY_NULLRESP:
+                observed.append((c, idx, msg))          # out-of-contract call in an obs=1 case: counted, never reported
+            elif any(k["key"] == key for k in known):
                 known_bad.append((c, idx, key, msg))
             else:
                 oracle_bad.append((c, idx, key, msg))
@@ -625,14 +644,30 @@ def run(chk, replay=None):
     chk.cov["traces_validated_against_impl"] = len(cases) - len(corr_bad)
     chk.add_obligation("correspondence: extracted C19_Model.step == muduo::net::RpcChannel on every op of every case (events, id_, outstandings_, pending callbacks)", not corr_bad)
     chk.add_obligation("oracle: the property text on the implementation's own trace", not oracle_bad)
+    gen_problems = [p for p in pr.get("problems", []) if "gen_C19" in p]
+    chk.add_obligation("generated facts: lib/gen_C19.py translated CallMethod / onRpcMessage / doneCallback / Atomic.h / rpc.proto "
+                       "of the current tree without FALLBACK (coq/Gen_C19.v; link lemmas in coq/C19_GenLink.v)", not gen_problems)
+    chk.cov["observations"] = {
+        "out-of-contract call (response == NULL) made in obs=1 cases; entry erased, closure neither run nor deleted; "
+        "outside the property, see docs/C19.md": len(observed)}
     chk.trusted("extraction: ExtrOcamlBasic only; extract/util.ml + extract/C19_driver.ml (OCaml 4.13.1)",
                 "harness/C19_driver.cc: scripted raw peer (frames built/decoded by hand with zlib adler32), --wrap=write (answer injected "
                 "when the REQUEST reaches the wire), --wrap=pthread_mutex_lock (helper threads parked at the channel / loop mutex), "
+                "harness/C19_rpcchannel.cc + C19_atomic_hook.h (the tree's RpcChannel.cc compiled in the driver with the two atomic "
+                "builtins of Atomic.h routed through a hook: a helper is parked before a second atomic access to id_), "
                 "#define private public, ASan poisoning as the observation of `delete response`",
+                "lib/gen_C19.py + lib/cxxast.py (clang 14 JSON AST -> coq/Gen_C19.v; every fact echoes the matched source text)",
                 "protobuf 3.21: ParseFromString(SerializeAsString(m)) = m and rejection of the X payloads (checked by the driver on every use)",
                 "harness/C19_test.proto + protoc-generated stub/service; the test service (Echo answers at once, Defer later) is user code")
-    chk.notes.append("not caught dynamically: a non-atomic id_ increment (would need a data-race detector; C08 covers AtomicIntegerT); "
-                     "the model takes incrementAndGet as one atomic step")
+    chk.notes.append("the model takes id_.incrementAndGet() as one atomic step: tied by the generated fact CallMethod_id_fetch_atomic "
+                     "(single use of id_, AtomicInt64, Atomic.h chain down to __sync_fetch_and_add) and, dynamically, by parking helper "
+                     "threads before a second atomic access to id_ (an id read and incremented in two accesses collides under F 1, F 2); "
+                     "an id_ that is no AtomicInt64 at all is only caught by the generated fact (and by C08)")
+    if gen_problems and not oracle_bad and pr["ok"]:
+        # the translator no longer understands the source although every link lemma still checks: conservative
+        pr = dict(pr)
+        pr["ok"] = False
+        pr["broken"] = list(pr.get("broken", [])) + ["lib/gen_C19.py: " + "; ".join(gen_problems)]
 
     def run_one(cc):
         io, cr = vlib.run_batch(impl, [cc], timeout=120)
@@ -654,6 +689,7 @@ def run(chk, replay=None):
         chk.known(key, "key=%s %s (%d histories; e.g. case %s op %d: %s)" % (key, kf["text"], len([x for x in known_bad if x[2] == key]), c.cid, idx, msg))
 
     reported = set()
+    oracle_bad.sort(key=lambda x: 1 if x[2] in ("crash", "no-output", "truncated") else 0)      # semantic failures first (stable)
     for (c, idx, key, msg) in oracle_bad:
         if key in reported or len(reported) >= 3:
             continue
